@@ -63,8 +63,9 @@ type Machine struct {
 	preemptAt   int             // -1: off; k: preempt before the k-th call instruction of spawned goroutines
 	preemptSeen int
 	preemptHit  bool
-	fmtOpaque   bool // fmt verbs render symbolic scalar/string operands as "?" (vsymFmtOpaque)
-	poolReuse   bool // sync.Pool.Get returns the most recently Put object (LIFO) instead of always missing
+	fnSeen      map[*ssa.Function]bool // functions whose SSA body was executed on this path (evidence)
+	fmtOpaque   bool                   // fmt verbs render symbolic scalar/string operands as "?" (vsymFmtOpaque)
+	poolReuse   bool                   // sync.Pool.Get returns the most recently Put object (LIFO) instead of always missing
 	pools       map[*value][]value
 }
 
@@ -868,6 +869,9 @@ func (m *Machine) callSSA(caller *frame, callpos token.Pos, fn *ssa.Function, ar
 		m.unsupported("uninstantiated generic function " + fn.String())
 	}
 	fr := &frame{m: m, caller: caller, fn: fn}
+	if m.fnSeen != nil && !m.fnSeen[fn] {
+		m.fnSeen[fn] = true
+	}
 	m.depth++
 	if m.depth > m.maxDep {
 		m.maxDep = m.depth
